@@ -49,6 +49,8 @@ fn calc_idx_sentinels(
 ) -> (usize, usize) {
     assert!(div_idx < div_nodes.len());
     assert!(div_nodes.last().unwrap().train_idx == train_idx_sentinel);
+    #[cfg(feature = "verif")]
+    crate::verif_hooks::hit("free_path::calc_idx_sentinels");
     // SAFETY: div_idx starts within div_nodes and cannot pass the ending sentinel
     let disp_node_idx_sentinel = unsafe {
         // Find the first matching train idx
@@ -83,6 +85,8 @@ fn find_train_intersect(
     assert!(idx_sentinel < link_idx_path.len());
     match link_opt_type {
         LinkOptType::Single(link_idx_check) => {
+            #[cfg(feature = "verif")]
+            crate::verif_hooks::hit("free_path::find_train_intersect::single");
             // SAFETY: Starts in range because idx_split < idx_sentinel and idx_sentinel < link_idx_path.len()
             // Stays in range because self.link_idx_path[idx_sentinel] = link_idx_check
             unsafe {
@@ -100,6 +104,8 @@ fn find_train_intersect(
             }
         }
         LinkOptType::Range(link_idx_min, link_idx_diff) => {
+            #[cfg(feature = "verif")]
+            crate::verif_hooks::hit("free_path::find_train_intersect::range");
             // SAFETY: Starts in range because idx_split < idx_sentinel and idx_sentinel < link_idx_path.len()
             // Stays in range because self.link_idx_path[idx_sentinel] = link_idx_check
             // Continues to stay in range because idx_split < idx_sentinel
@@ -133,6 +139,8 @@ fn find_train_intersect(
             }
         }
         LinkOptType::Check => {
+            #[cfg(feature = "verif")]
+            crate::verif_hooks::hit("free_path::find_train_intersect::check");
             // SAFETY: Starts in range because idx_split < idx_sentinel and idx_sentinel < link_idx_path.len()
             unsafe {
                 while idx_split < idx_sentinel {
@@ -165,6 +173,8 @@ fn add_blocking_trains(
         let train_add = trains_blocking[idx_add.idx()];
         let mut idx_test = trains_view_base.idx_begin.idx();
 
+        #[cfg(feature = "verif")]
+        crate::verif_hooks::hit("free_path::add_blocking_trains");
         // SAFETY: idx_test = trains_view_base.idx_begin <= trains_view_base.idx_end
         // and trains_blocking[trains_view_base.idx_end] = train_add (sentinel)
         unsafe {
